@@ -4,5 +4,6 @@ CONSTANTS
   MaxGen = 2
   RestartRule = "stop_old"
   PortRule = "opened"
+  ShutdownRule = "close_always"
 INVARIANT Emit1
 CHECK_DEADLOCK FALSE
